@@ -13,7 +13,10 @@ NOTES = "All claimed checks are bounded: evidence lists the bound vector of ever
 
 # properties whose thorough job list ran clean (exit 0) on the unchanged tree during the build session; for the others
 # `./check <id> --tier thorough` falls back to the quick bounds (VERIF_FORCE_THOROUGH=1 runs the deeper list anyway)
-THOROUGH_VALIDATED = {"C07", "C08", "C09", "C10", "C12", "C13", "C15", "C16", "C17", "C23", "C25", "C26", "C27", "C28", "C31", "C32"}
+THOROUGH_VALIDATED = {"C07", "C08", "C09", "C10", "C12", "C13", "C14", "C15", "C16", "C17", "C22", "C23", "C25", "C26", "C27",
+                      "C28", "C29", "C31", "C32"}
+# not validated (thorough falls back to quick): C01-C06, C20, C30 (whole-engine job lists of hours), C11 (a native witness
+# of a non-grid timeline does not replay), C18, C19, C21, C24 (jobs past the 45-50 minute job budget or path budgets)
 
 SPEC = {}
 NOT_APPLICABLE = {}
